@@ -13,8 +13,11 @@ Section Sys.
   (* dependency satisfaction as a function of the *set* of applied operations *)
   Variable dsat : list Op -> Op -> Prop.
   Hypothesis dsat_mono : forall l l' o, incl l l' -> dsat l o -> dsat l' o.
-  Hypothesis ready_mono : forall s a b, oid a <> oid b -> ready s a -> ready s b -> ready (apply s a) b.
-  Hypothesis comm : forall s a b, oid a <> oid b -> ready s a -> ready s b ->
+  Variable good : St -> Prop.
+  Hypothesis good_init : good init.
+  Hypothesis good_step : forall s a, good s -> ready s a -> good (apply s a).
+  Hypothesis ready_mono : forall s a b, good s -> oid a <> oid b -> ready s a -> ready s b -> ready (apply s a) b.
+  Hypothesis comm : forall s a b, good s -> oid a <> oid b -> ready s a -> ready s b ->
       apply (apply s a) b = apply (apply s b) a.
 
   Notation run l := (fold_left apply l init).
@@ -328,7 +331,7 @@ Section Sys.
     state_of s r1 = state_of s r2.
   Proof.
     intros Hr Hp. apply inv_reachable in Hr. destruct Hr as [Iok Ind _ Iinj _ _ _ _ _].
-    unfold state_of. eapply executable_permutations_agree with (oid := oid); eauto.
+    unfold state_of. eapply executable_permutations_agree with (oid := oid) (good := good); eauto.
     apply nodup_map_inj; [apply Ind|].
     intros x y Hx Hy E. apply Iinj; auto; right; exists r1; tauto.
   Qed.
